@@ -58,6 +58,46 @@ def parseD (tk : List String) : Option D :=
   | some (g, _), ["V", v, "R", r] => some { g := g, valid := v == "1", rooted := r == "1" }
   | _, _ => none
 
+/-! The observer tables as `harness/C15.cpp` prints them (plain object labels; `harness/C14.cpp` now
+prints identities and `Drive/C14.lean` parses those, so the plain-label parser lives here). -/
+
+def parseOpt0 (s : String) : Option (Option Nat) := if s == "-" then some none else s.toNat?.map some
+
+/-- one observer block `X k gN .. gE .. Ng .. Eg .. iN .. iE .. Ni .. Ei ..` -/
+def parseObs0 (t : List String) : Option (Nat × Obs × List String) :=
+  match t with
+  | "X" :: k :: "gN" :: r =>
+    let (gN, r) := takeUntil ["gE"] r
+    let (gE, r) := takeUntil ["Ng"] (r.drop 1)
+    let (ng, r) := takeUntil ["Eg"] (r.drop 1)
+    let (eg, r) := takeUntil ["iN"] (r.drop 1)
+    let (iN, r) := takeUntil ["iE"] (r.drop 1)
+    let (iE, r) := takeUntil ["Ni"] (r.drop 1)
+    let (ni, r) := takeUntil ["Ei"] (r.drop 1)
+    let (ei, r) := takeUntil ["X"] (r.drop 1)
+    match k.toNat?, gN.mapM parseOpt0, gE.mapM parseOpt0, ng.mapM parsePair, eg.mapM parsePair,
+          iN.mapM parseOpt0, iE.mapM parseOpt0, ni.mapM parsePair, ei.mapM parsePair with
+    | some k, some gN, some gE, some ng, some eg, some iN, some iE, some ni, some ei =>
+      some (k, { gN := gN, gE := gE, Ng := ng, Eg := eg, iN := iN, iE := iE, Ni := ni, Ei := ei }, r)
+    | _, _, _, _, _, _, _, _, _ => none
+  | _ => none
+
+partial def parseObsList0 (t : List String) (acc : List (Option Obs)) : Option (List (Option Obs)) :=
+  match t with
+  | [] => some acc
+  | _ =>
+    match parseObs0 t with
+    | some (k, o, r) => parseObsList0 r ((acc ++ List.replicate (k + 1 - acc.length) none).set k (some o))
+    | none => none
+
+def parseWorld (t : List String) : Option World :=
+  match parseGraph t with
+  | some (g, r) =>
+    match parseObsList0 r [] with
+    | some os => some { g := g, obs := os ++ List.replicate (3 - os.length) none }
+    | none => none
+  | none => none
+
 def parseTW (tk : List String) : Option TW :=
   let (wt, rest) := takeUntil ["V"] tk
   match parseWorld wt, rest with
